@@ -117,11 +117,15 @@ def gen_case(rng, size="small"):
     no_contig_header = rng.random() < 0.06          # header without ##contig lines (plain VCF only)
     tags["no_contig_header"] = no_contig_header
     decorate = rng.random() < 0.5                   # ID / QUAL / FILTER / INFO and extra FORMAT keys vary
+    tags["decorated"] = decorate
     rng.shuffle(contigs)                            # header order is unrelated to file order
+    far = {c: rng.random() < 0.08 for c in chroms}  # chromosomes whose records lie beyond position 3e8
     for c in contigs:
         if no_contig_header:
             continue
-        if rng.random() < 0.15:
+        if far.get(c):
+            hdr.append(f"##contig=<ID={c},length=400000000>")
+        elif rng.random() < 0.15:
             hdr.append(f"##contig=<ID={c}>")
         else:
             hdr.append(f"##contig=<ID={c},length={rng.choice([1000, 5000, 20000, 100000])}>")
@@ -133,7 +137,7 @@ def gen_case(rng, size="small"):
     for c in chroms:
         tagkind = rng.choice(["PS", "PS", "PS", "HP", "HP", "none", "nokey"])
         n = rng.choice([0, 1, 2, 3]) if rng.random() < 0.15 else rng.randint(2, maxrec)
-        pos = rng.choice([0, 0, rng.randint(1, 50), rng.randint(1, 50), 300000000])   # 0: first record may sit at position 1
+        pos = 300000000 if far[c] else rng.choice([0, 0, rng.randint(1, 50), rng.randint(1, 50)])   # 0: first record may sit at position 1
         indel_rate = rng.choice([0, 0.2, 0.5])
         # per sample: phase-set layout over the record slots
         layouts = {}
@@ -261,7 +265,7 @@ def gen_case(rng, size="small"):
     else:
         container = rng.choice(["vcf"] * 6 + ["gz", "gz+tbi", "gz+tbi", "gz+csi", "bcf", "bcf+csi"])
     tags["container"] = container
-    if rng.random() < 0.03 and len(chroms) >= 2 and container == "vcf" and not tags.get("unsorted"):
+    if rng.random() < 0.08 and len(chroms) >= 2 and container == "vcf" and not tags.get("unsorted"):
         # a chromosome that comes back after another one (accepted without an index): reported twice
         first = [l for l in lines if l.startswith(chroms[0] + "\t")]
         if len(first) >= 2:
@@ -457,11 +461,13 @@ def gen_n50_boundary(rng):
     pieces = sorted(o_pieces(list(sets.values())), reverse=True)
     if pieces:
         k = rng.randint(1, len(pieces))
-        target = max(1, 2 * sum(pieces[:k]) + rng.choice([-1, 0, 0, 1]))
+        delta = rng.choice([-1, 0, 0, 1])
+        target = max(1, 2 * sum(pieces[:k]) + delta)
+        case["tags"]["n50_delta"] = delta
     else:
         target = 1000
     case["chr_lengths"] = {"chr1": target}
-    case["tags"] = dict(case["tags"], n50_boundary=True)
+    case["tags"]["n50_boundary"] = True
     return case
 
 
@@ -485,6 +491,7 @@ def abstract_vcf(path, sample):
     """pysam (trusted parser) -> (samples, header contigs [(name, length|None)], groups [(chrom, [rec])]) where
     rec = dict(pos, snv, nalts, gt (tuple|None), phased, ps ('absent'|'missing'|int), hp (int|None))."""
     import pysam
+    pysam.set_verbosity(0)           # header-less contigs are part of the input distribution; htslib's warnings are noise
     vf = pysam.VariantFile(path)
     samples = list(vf.header.samples)
     sel = sample if sample is not None else samples[0]
